@@ -82,12 +82,15 @@ macro_rules! impl_subject_trivial {
     }
 
     impl<$($lf,)? Item, Err>  SubjectSize for $ty {
+      // Subscribers that already unsubscribed or finished stay in the lists
+      // until the next `retain`, they must not be counted.
       fn is_empty(&self) -> bool{
         self
         .observers
         .rc_deref().as_ref().map_or(true, |observers| {
-          observers.is_empty()
-            && self.chamber.rc_deref().as_ref().unwrap().is_empty()
+          observers.iter().all(|p| p.p_is_closed())
+            && self.chamber.rc_deref().as_ref().unwrap()
+              .iter().all(|p| p.p_is_closed())
         })
       }
 
@@ -95,7 +98,9 @@ macro_rules! impl_subject_trivial {
         self
           .observers
           .rc_deref().as_ref().map_or(0, |observers| {
-            observers.len() + self.chamber.rc_deref().as_ref().unwrap().len()
+            observers.iter().filter(|p| !p.p_is_closed()).count()
+              + self.chamber.rc_deref().as_ref().unwrap()
+                .iter().filter(|p| !p.p_is_closed()).count()
           })
       }
     }
